@@ -359,6 +359,37 @@ func (c *Ctx) RunC03(tier string) {
 		rep.Bound += "; (thorough) every pair of slots takes every pair of templates x every quadruple from an 8-expression operand alphabet, M=8000, both dialects, 2 EQU sets"
 	}
 
+	// P2c: long programs: label distances beyond 127 and 255 lines.
+	if c.Sh.I == 0 {
+		for _, n := range []int{130, 260, 300} {
+			for _, dialect := range []g.SimulatorMode{g.ICWS94, g.ICWS88} {
+				cfg := g.SimulatorConfig{Mode: dialect, CoreSize: 8192, Processes: 8, Cycles: 10, ReadLimit: 8192, WriteLimit: 8192, Length: 300, Distance: 100}
+				p := baseMeta(&ref.AProg{Equs: []ref.AEqu{{Name: "span", Body: toks("bottom-top")}}})
+				for i := 0; i < n; i++ {
+					in := ref.AIns{Op: "jmp", A: operand("", "top"), B: operand("", fmt.Sprintf("%d", i))}
+					switch {
+					case i == 0:
+						in = ref.AIns{Labels: []string{"top"}, Op: "mov", A: operand("", "bottom"), B: operand("@", "span")}
+					case i == n-1:
+						in = ref.AIns{Labels: []string{"bottom"}, Op: "djn", A: operand("", "top"), B: operand("<", "top-span")}
+					case i%50 == 7:
+						in = ref.AIns{Labels: []string{fmt.Sprintf("m%d", i)}, Op: "add", A: operand("#", "bottom"), B: operand("", "top")}
+					}
+					p.Ins = append(p.Ins, in)
+				}
+				p.StartKind, p.StartExpr = ref.StartOrg, toks("bottom")
+				m, err := ref.Denote(p, cfg)
+				if err != nil {
+					rep.Count("c03:generator-skipped-ill-formed")
+					continue
+				}
+				src, _ := Render(p, nil)
+				c.checkSrc("C03", mkCase(p, m, cfg, src, fmt.Sprintf("long program, %d instructions", n)))
+			}
+		}
+		rep.Bound += "; programs of 130, 260 and 300 instructions with label references spanning the whole program (distances beyond 127 and 255)"
+	}
+
 	// P3: renderings. Representative programs x every deviation set of size
 	// <= 2 (quick: <= 1, and <= 2 for the first programs).
 	reps := representativePrograms()
